@@ -47,7 +47,7 @@ Definition enc (o : outcome) : Z * Z * list Z :=
 
 def plan(ctx):
     if ctx.tier == "quick":
-        return 6, 8
+        return 9, 8
     return 120, 14
 
 
@@ -58,7 +58,11 @@ def gen_trials(ctx, nsc, per, tag="sc"):
     for i in range(nsc):
         r = rng.fork("s%d" % i)
         crash = r.choice([1, 1, 1, 0, 2, 3])
-        mode, ops = T.gen_scenario(r, crash)
+        # stratified: every family of scenarios is present even in the smallest run
+        fam = T.FAMILIES[i % len(T.FAMILIES)] if i < 3 * len(T.FAMILIES) else None
+        if fam == "collide":
+            crash = 1
+        mode, ops = T.gen_scenario(r, crash, fam)
         scen.append((r, crash, mode, ops))
     # probe run: at which steps does the crash node have user events pending?
     probes = T.run_harness(ctx.bin_path("h_restart"), [T.probe_line(m, o, c) for (_, c, m, o) in scen], os.path.join(ctx.tmp, "run"), tag + "_probe",
